@@ -56,14 +56,24 @@ def centre_arc(rng):
     extremum lies inside the arc only after adding whole turns"""
     rx = rng.choice([3.0, 12.0, 5.0, 40.0])
     ry = rng.choice([12.0, 3.0, 5.0, 7.5])
-    phi = rng.choice([0.0, -20.0, 340.0, -380.0, 20.0, 90.0, 45.0, 135.0, -100.0, 200.0])
-    th1 = rng.choice([355.0, 359.0, 1.0, 5.0, 89.0, 91.0, 179.0, 181.0, 269.0, 271.0, 300.0, 45.0]) + rng.choice([0.0, 0.25, -0.25])
+    phi = rng.choice([0.0, -20.0, 340.0, -380.0, 20.0, 90.0, 45.0, 135.0, -100.0, 200.0, 180.0, 270.0, 450.0, 540.0, -90.0])
+    if rng.random() < 0.3:
+        th1 = rng.choice([0.0, 90.0, 180.0, 270.0])        # the start exactly on an axis vertex of the ellipse
+    else:
+        th1 = rng.choice([355.0, 359.0, 1.0, 5.0, 89.0, 91.0, 179.0, 181.0, 269.0, 271.0, 300.0, 45.0]) + rng.choice([0.0, 0.25, -0.25])
     dth = rng.choice([340.0, 300.0, 200.0, 185.0, 95.0, 30.0, 270.0]) * rng.choice([1, -1])
     cx, cy = geo.pt(rng)
     c, sn = math.cos(math.radians(phi)), math.sin(math.radians(phi))
 
+    def cs(deg):
+        q = deg % 360.0
+        exact = {0.0: (1.0, 0.0), 90.0: (0.0, 1.0), 180.0: (-1.0, 0.0), 270.0: (0.0, -1.0)}
+        return exact.get(q, (math.cos(math.radians(deg)), math.sin(math.radians(deg))))
+    c, sn = cs(phi)
+
     def at(deg):
-        x, y = rx * math.cos(math.radians(deg)), ry * math.sin(math.radians(deg))
+        cc, ss = cs(deg)
+        x, y = rx * cc, ry * ss
         return [cx + c * x - sn * y, cy + sn * x + c * y]
     return {"start": at(th1), "end": at(th1 + dth), "rx": rx, "ry": ry, "rot": phi, "fa": int(abs(dth) > 180), "fs": int(dth > 0)}
 
